@@ -390,6 +390,29 @@ def oracle_tables(P):
                         if o[pos] == "-" and n[pos] != "-" and (port, pos) not in slot_cid:
                             slot_cid[(port, pos)] = d["cid"]
                             break
+            # a pending connect leaves its slot only through its own SYN-ACK (a datagram acknowledging its SYN's
+            # sequence number) or its own cancellation (a control request): no other datagram may disturb it
+            if st["fp"] and st["fp_before"] and st["head"] == "recv" and "dgram" in st:
+                def seqs(fp):
+                    r = {}
+                    for c in fp["connecting"]:
+                        port = int(c.split("=")[0].split(":")[1])
+                        r[port] = [x.rstrip("x") for x in c.split("=")[1].split(":")[0].split(".")]
+                    return r
+                b4, aft = seqs(st["fp_before"]), seqs(st["fp"])
+                port, hx = st["dgram"]
+                try:
+                    dd = parse_dgram(hx) if len(hx) >= 40 and (bytes.fromhex(hx)[0] & 0xF) == 1 else None
+                except Exception:
+                    dd = None
+                for p2, slots in b4.items():
+                    now_slots = aft.get(p2, ["-"] * 4)
+                    gone = [s for i, s in enumerate(slots) if s != "-" and now_slots[i] == "-"]
+                    for g in gone:
+                        legit = dd is not None and dd["type"] == ST_STATE and p2 == port and str(dd["ack"]) == g
+                        if not legit:
+                            hits.append({"sig": {"oracle": "sock_tables", "what": "pending_connect_dropped_by_unrelated_datagram"},
+                                         "text": f"`{st['line'][:40]}`: the datagram from {port} (type {dd['type'] if dd else '?'}, ack_nr {dd['ack'] if dd else '?'}) removed the pending connect to {p2} whose SYN has sequence number {g}: a stray or hostile packet disturbed the connect service"})
             if st["out"].startswith("PANIC"):
                 hits.append({"sig": {"oracle": "sock_tables", "what": "panic"}, "text": f"`{st['line'][:80]}` -> {st['out'][:160]}"})
                 break
@@ -426,6 +449,15 @@ def oracle_tables(P):
                 except Exception:
                     continue
                 if d["type"] == ST_RESET:
+                    # C11: the RESET refusing a SYN names the SYN's own connection id and acknowledges its sequence number
+                    if "dgram" in st:
+                        try:
+                            sd = parse_dgram(st["dgram"][1])
+                        except Exception:
+                            sd = None
+                        if sd and sd["type"] == ST_SYN and (d["cid"] != sd["cid"] or d["ack"] != sd["seq"] or port != st["dgram"][0]):
+                            hits.append({"sig": {"oracle": "sock_tables", "what": "reset_names_wrong_connection"},
+                                         "text": f"`{st['line'][:40]}`: the RESET refusing the SYN from {st['dgram'][0]} (connection id {sd['cid']}, seq {sd['seq']}) was sent to {port} with connection id {d['cid']} and ack_nr {d['ack']}: it does not carry the id owed to that direction"})
                     if b is None or len(b["syns"]) < 32:
                         hits.append({"sig": {"oracle": "sock_tables", "what": "reset_with_room"},
                                      "text": f"`{st['line'][:60]}`: RESET sent to {port} although only {len(b['syns']) if b else '?'} SYNs were cached"})
@@ -546,3 +578,16 @@ def register(P):
         "directed": {"race": directed_race(P)},
         "rule": rule, "assumptions": common_assume, "trusted": common_trust,
     }
+
+
+def register_late(P):
+    """after every property is registered: C10's socket-level clause (hostile traffic cannot disturb the
+    accept/connect service or another connection) is judged on the dispatcher lockstep too"""
+    P.PROPS["C10"]["components"].append("sock")
+    P.PROPS["C10"]["oracles"]["sock_tables"] = oracle_tables(P)
+    # C11 "every emitted datagram carries the connection id owed to that direction": the dispatcher's own datagrams
+    # (SYN, RESET) are compared byte for byte in the sock lockstep, the connection's in the vs lockstep
+    for comp in ("sock", "vsock"):
+        if comp not in P.PROPS["C11"]["components"]:
+            P.PROPS["C11"]["components"].append(comp)
+    P.PROPS["C11"]["oracles"]["sock_tables"] = oracle_tables(P)
